@@ -187,16 +187,15 @@ func (g *globAnalysis) findMutableGlobals() {
 					if !ok {
 						continue
 					}
-					tn := typeName(pt.Elem())
-					if p2, ok := pt.Elem().Underlying().(*types.Pointer); ok {
-						tn = typeName(p2.Elem())
-					}
-					if fs := writtenFields[tn]; len(fs) > 0 {
-						if _, ok := g.mutable[gl]; !ok {
-							g.mutable[gl] = "its pointer escapes in " + g.p.FuncID(fn) + " (" + g.p.InstrPos(in) + ") and fields of " + tn + " are written elsewhere"
-						}
-						for _, f := range fs {
-							g.fieldTaint[fieldKey{tn, f}] = true
+					// the object and everything it owns through pointer / struct / slice / map fields of module types
+					for _, tn := range ownedTypeNames(pt.Elem()) {
+						if fs := writtenFields[tn]; len(fs) > 0 {
+							if _, ok := g.mutable[gl]; !ok {
+								g.mutable[gl] = "its pointer escapes in " + g.p.FuncID(fn) + " (" + g.p.InstrPos(in) + ") and fields of " + tn + " (reachable from it) are written elsewhere"
+							}
+							for _, f := range fs {
+								g.fieldTaint[fieldKey{tn, f}] = true
+							}
 						}
 					}
 				}
@@ -1048,6 +1047,11 @@ func ruleGLOB3(w *World) []Ob {
 			}
 		}
 	}
+	for _, pp := range []*Prog{w.D(), w.W()} {
+		for _, o := range memoObligations(w, pp) {
+			l.add(o)
+		}
+	}
 	return l.list
 }
 
@@ -1056,4 +1060,211 @@ func shortChain(c []string) string {
 		return c[0]
 	}
 	return c[0] + " via " + strings.Join(c[1:], " <- ")
+}
+
+// memoObligations: whether and how a node is (re)assembled must not depend on what earlier operations left on the
+// node.  In the growers' traversal functions no branch condition may read a field of Node (or of the structs nested in
+// it) that the growing itself writes: such a condition is a cache test, and the tree can have changed since.
+func memoObligations(w *World, p *Prog) []Ob {
+	var out []Ob
+	isNodeStruct := func(t types.Type) bool {
+		if pt, ok := t.Underlying().(*types.Pointer); ok {
+			t = pt.Elem()
+		}
+		n := namedOf(t)
+		if n == nil || n.Obj().Pkg() == nil || n.Obj().Pkg().Path() != modulePath {
+			return false
+		}
+		if typeName(n) == "Node" {
+			return true
+		}
+		// struct types nested by value in Node
+		if nd := lookupByCanonName(n.Obj().Pkg().Scope(), "Node"); nd != nil {
+			if st, ok := nd.Type().Underlying().(*types.Struct); ok {
+				for i := 0; i < st.NumFields(); i++ {
+					if types.Identical(st.Field(i).Type(), n) {
+						return true
+					}
+				}
+			}
+		}
+		return false
+	}
+	var roots []*ssa.Function
+	for _, fn := range libFuncs(p) {
+		if fn.Parent() == nil && strings.Contains(recvTypeName(fn), "rower") {
+			roots = append(roots, fn)
+		}
+	}
+	if len(roots) == 0 {
+		return []Ob{{Rule: "GLOB-3", Cfg: p.Cfg.Name, Func: "-", Construct: "grower traversal functions", Pos: "-", Status: Undecided, Nontrivial: true, Role: "memo", Detail: "no grower methods found"}}
+	}
+	reach := reachableFrom(p, roots, nil)
+	written := map[string]string{}
+	for fn := range reach {
+		fn := fn
+		allInstrs(fn, func(in ssa.Instruction) {
+			if st, ok := in.(*ssa.Store); ok {
+				if fa, ok := st.Addr.(*ssa.FieldAddr); ok && isNodeStruct(fa.X.Type()) {
+					written[fieldName(fa.X.Type(), fa.Field)] = p.FuncID(fn)
+				}
+			}
+		})
+	}
+	// fields of the node read by a Node method (transitively)
+	readsMemo := map[*ssa.Function]map[string]bool{}
+	var reads func(f *ssa.Function, depth int) map[string]bool
+	reads = func(f *ssa.Function, depth int) map[string]bool {
+		if m, ok := readsMemo[f]; ok {
+			return m
+		}
+		m := map[string]bool{}
+		readsMemo[f] = m
+		if depth > 4 || f.Blocks == nil {
+			return m
+		}
+		allInstrs(f, func(in ssa.Instruction) {
+			switch x := in.(type) {
+			case *ssa.UnOp:
+				if fa, ok := x.X.(*ssa.FieldAddr); ok && x.Op == token.MUL && isNodeStruct(fa.X.Type()) {
+					m[fieldName(fa.X.Type(), fa.Field)] = true
+				}
+			case *ssa.Field:
+				if isNodeStruct(x.X.Type()) {
+					m[fieldName(x.X.Type(), x.Field)] = true
+				}
+			case *ssa.Call:
+				if g := x.Common().StaticCallee(); g != nil && p.InModule(g) && recvTypeName(g) == "Node" {
+					for k := range reads(g, depth+1) {
+						m[k] = true
+					}
+				}
+			}
+		})
+		return m
+	}
+	var slice func(v ssa.Value, seen map[ssa.Value]bool, acc map[string]bool, d int)
+	slice = func(v ssa.Value, seen map[ssa.Value]bool, acc map[string]bool, d int) {
+		if v == nil || seen[v] || d > 8 {
+			return
+		}
+		seen[v] = true
+		switch x := v.(type) {
+		case *ssa.UnOp:
+			if fa, ok := x.X.(*ssa.FieldAddr); ok && x.Op == token.MUL && isNodeStruct(fa.X.Type()) {
+				acc[fieldName(fa.X.Type(), fa.Field)] = true
+				return
+			}
+			slice(x.X, seen, acc, d+1)
+		case *ssa.Field:
+			if isNodeStruct(x.X.Type()) {
+				acc[fieldName(x.X.Type(), x.Field)] = true
+			}
+			slice(x.X, seen, acc, d+1)
+		case *ssa.BinOp:
+			slice(x.X, seen, acc, d+1)
+			slice(x.Y, seen, acc, d+1)
+		case *ssa.Phi:
+			for _, e := range x.Edges {
+				slice(e, seen, acc, d+1)
+			}
+		case *ssa.Call:
+			if g := x.Common().StaticCallee(); g != nil && p.InModule(g) && recvTypeName(g) == "Node" {
+				for k := range reads(g, 0) {
+					acc[k] = true
+				}
+			}
+		case *ssa.Extract:
+			slice(x.Tuple, seen, acc, d+1)
+		case *ssa.Convert:
+			slice(x.X, seen, acc, d+1)
+		case *ssa.ChangeType:
+			slice(x.X, seen, acc, d+1)
+		}
+	}
+	var fns []*ssa.Function
+	for fn := range reach {
+		if strings.Contains(recvTypeName(fn), "rower") {
+			fns = append(fns, fn)
+		}
+	}
+	sort.Slice(fns, func(i, j int) bool { return p.FuncID(fns[i]) < p.FuncID(fns[j]) })
+	for _, fn := range fns {
+		if p.Cfg.Name == "W" && !wOnlyFunc(w, fn) {
+			continue
+		}
+		var hits []string
+		nIf := 0
+		allInstrs(fn, func(in ssa.Instruction) {
+			iff, ok := in.(*ssa.If)
+			if !ok {
+				return
+			}
+			nIf++
+			acc := map[string]bool{}
+			slice(iff.Cond, map[ssa.Value]bool{}, acc, 0)
+			for k := range acc {
+				if by, isW := written[k]; isW {
+					hits = append(hits, fmt.Sprintf("the condition at %s reads the node's %s, which growing itself writes (%s)", p.InstrPos(iff), k, by))
+				}
+			}
+		})
+		if nIf == 0 {
+			continue
+		}
+		ob := Ob{Rule: "GLOB-3", Cfg: p.Cfg.Name, Func: p.FuncID(fn), Construct: "assembly does not depend on what an earlier operation left on the node", Pos: p.Pos(fn.Pos()), Nontrivial: nIf > 0, Role: "memo"}
+		if len(hits) > 0 {
+			sort.Strings(hits)
+			ob.Status, ob.Detail = Violation, strings.Join(dedup(hits), "; ")+": a remembered result is reused although the tree (children added below, a sibling added, other options) may have changed since — rows, paths or validation then reflect the earlier state"
+		} else {
+			ob.Status, ob.Detail = OK, fmt.Sprintf("%d branch condition(s), none reads a node field written while growing (%s)", nIf, strings.Join(sortedKeys(written), ", "))
+		}
+		out = append(out, ob)
+	}
+	return out
+}
+
+// ownedTypeNames: the named module struct types reachable from t through pointers, struct fields, slices, arrays and maps.
+func ownedTypeNames(t types.Type) []string {
+	seen := map[string]bool{}
+	var out []string
+	var walk func(t types.Type, d int)
+	walk = func(t types.Type, d int) {
+		if t == nil || d > 8 {
+			return
+		}
+		if pt, ok := types.Unalias(t).(*types.Pointer); ok {
+			walk(pt.Elem(), d+1)
+			return
+		}
+		if n, ok := types.Unalias(t).(*types.Named); ok {
+			if n.Obj().Pkg() == nil || !strings.HasPrefix(n.Obj().Pkg().Path(), modulePath) {
+				return
+			}
+			nm := typeName(n)
+			if seen[nm] {
+				return
+			}
+			seen[nm] = true
+			if _, isStruct := n.Underlying().(*types.Struct); isStruct {
+				out = append(out, nm)
+			}
+		}
+		switch u := t.Underlying().(type) {
+		case *types.Pointer:
+			walk(u.Elem(), d+1)
+		case *types.Struct:
+			for i := 0; i < u.NumFields(); i++ {
+				walk(u.Field(i).Type(), d+1)
+			}
+		case *types.Slice:
+			walk(u.Elem(), d+1)
+		case *types.Array:
+			walk(u.Elem(), d+1)
+		case *types.Map:
+			walk(u.Elem(), d+1)
+		}
+	}
+	walk(t, 0)
+	return out
 }
